@@ -109,7 +109,7 @@ CHECKS['C08'] = {
 }
 
 CHECKS['C07'] = {
-    'grid': {'sets': ['c07'], 'bound': 'every sequence of up to 3 admitted lines over a 4-line pool (also cut into two files) x 8 plain/DISTINCT, 4 aggregate and 4 join statements x every n in 0..rows+2 (about 1070 cases, each with all n)'},
+    'grid': {'sets': ['c07'], 'bound': 'every sequence of up to 3 admitted lines over a 4-line pool (also cut into two files) x 8 plain/DISTINCT, 4 aggregate and 4 join statements x every n in 0..rows+2; 3 inputs with lines the table does not admit x all 12 statements (about 1110 cases, each with all n)'},
     'verus_units': ['engine', 'executor', 'converter', 'aggresult'],
     'clause_prefixes': ['c07', 'out.'],
     'technique': 'contract-based deductive verification (Verus): ExecutionEngine::update_limit / reached_limit / execute extracted from /repo; prefix lemma over the update_limit contract',
@@ -159,7 +159,7 @@ CHECKS['C01'] = {
     'unproved': ['regex crate (matching)', 'vx_pattern_refs: the closure that borrows (name, text, mode) triples for TableDefinition::new is a stand-in (tuple-pattern closure returning borrows)', 'the expression parser behind DEFAULT literals (stand-ins)'],
 }
 CHECKS['C02'] = {
-    'grid': {'sets': ['c02'], 'bound': '20 JSON-path column definitions (every scalar type, nested paths, array indexes, CONVERT, DEFAULT, an array column; a regex column beside them) x 30 lines (nesting, whitespace around the document, wrong-typed leaves, numbers beyond i64 / f64, duplicate keys, arrays, empty containers, non-JSON, truncated JSON); NOT NULL / DEFAULT interplay on 6 lines (about 600 cases), oracle = serde_json parse of the line + the conversion rules of the statement'},
+    'grid': {'sets': ['c02'], 'bound': '20 JSON-path column definitions (every scalar type, nested paths, array indexes, CONVERT, DEFAULT, an array column; a regex column beside them) x 30 lines (nesting, whitespace around the document, wrong-typed leaves, numbers beyond i64 / f64, duplicate keys, arrays, empty containers, non-JSON, truncated JSON, CONVERT of padded strings); NOT NULL / DEFAULT interplay on 6 lines (about 600 cases), oracle = serde_json parse of the line + the conversion rules of the statement'},
     'verus_units': ['extract', 'parser', 'converter'],
     'clause_prefixes': ['c02'],
     'technique': 'contract-based deductive verification (Verus): JsonAccess::get_value (recursive, with decreases), the Json arm of ColumnParsing::extract and the scalar arms of ValueType::convert_from_json extracted from /repo against json_walk / sem_from_json',
@@ -172,7 +172,7 @@ CHECKS['C02'] = {
 }
 
 CHECKS['C13'] = {
-    'grid': {'sets': ['c13'], 'bound': 'complete over the operator table for expressions of two and three binary operators between plain operands (144 + 1728 cases); IS [NOT] NULL / [NOT] IN around every operator; NOT, unary minus, negative literals, cast / subscript / qualified operands on either side of every operator; parenthesised operands (also in the middle of every operator pair); line breaks between an operator and a unary minus (about 2390 cases)'},
+    'grid': {'sets': ['c13'], 'bound': 'complete over the operator table for expressions of two and three binary operators between plain operands (144 + 1728 cases); IS [NOT] NULL / [NOT] IN around every operator; NOT, unary minus, negative literals, cast / subscript / qualified operands on either side of every operator; parenthesised operands (also in the middle of every operator pair); line breaks between an operator and a unary minus; IS / IS NOT with a general right operand before and after every operator and with cast / subscript / qualified / negated operands (about 2600 cases)'},
     'verus_units': ['parser', 'tokenizer', 'converter'],
     'clause_prefixes': ['c13'],
     'technique': 'contract-based deductive verification (Verus): BinaryOperators::new / get, Parser::get_token_precedence, Parser::parse_unary_operator and tokenize extracted from /repo; the precedence numbers are read from the source on every run, the functions are proved to use exactly them, and a lemma proves that the numbers realise the standard SQL chain',
@@ -235,7 +235,7 @@ CHECKS['C04'] = {
     'unproved': ['the ORDER in which ExpressionTree::visit reaches the nodes (uninterpreted; the two visitor closures are verified as loops over that order: rule E4-visit); that it reaches every sub-expression is proved in unit visit for a visitor without state', 'Vec<Value>::sort (sorted permutation stand-in)', 'iter_mut loop headers of execute_result'],
 }
 CHECKS['C15'] = {
-    'grid': {'sets': ['c15'], 'bound': 'every multiset of 2..4 lines over a 7-line pool, all its permutations, x 6 statements (COUNT, COUNT(c), COUNT(DISTINCT), SUM, MIN, MAX, AVG, PERCENTILE, BOOL_AND, BOOL_OR; GROUP BY / WHERE / HAVING) and STDDEV / VARIANCE to 9 decimals; every cut of every sequence of 2..3 lines (a fifth of those of 4) into two parts for the key-wise combination (about 3750 cases)'},
+    'grid': {'sets': ['c15'], 'bound': 'every multiset of 2..4 lines over a 7-line pool, all its permutations, x 6 statements (COUNT, COUNT(c), COUNT(DISTINCT), SUM, MIN, MAX, AVG, PERCENTILE, BOOL_AND, BOOL_OR; GROUP BY / WHERE / HAVING) and STDDEV / VARIANCE to 9 decimals; every cut of every sequence of 2..3 lines (a fifth of those of 4) into two parts for the key-wise combination; MIN / MAX over all triples of 8 number-like and other TEXT values in every order (about 5400 cases with the families of the source header)'},
     'verus_units': ['aggregate', 'aggdispatch'],
     'kani': {
         'sets': ['value_order'],
